@@ -71,7 +71,8 @@ def run(prop, tier):
         # 3. trace validation
         res, events = _validate(out, trace, tier == "thorough", "c18tv")
         out.traces = len(events)
-        out.evaluations = len(events) * 6 - 5 * 10   # six roles per name event, one per class event
+        ncls = sum(1 for e in events if e["event"] == "class")
+        out.evaluations = (len(events) - ncls) * 6 + ncls   # six roles per name event, one per class event
         for e in events:
             if e["event"] == "class":
                 out.nontriv(e["cls"])
@@ -80,11 +81,13 @@ def run(prop, tier):
                 vals = [e[r] for r in ("elem", "attr", "pi", "ent", "doctype")]
                 if len(e["s"]) >= 2 or any(v is True for v in vals):
                     out.nontriv(e["s"])
-        for e in events[10:13]:
+        for e in [x for x in events if x["event"] != "class"][:3]:
             out.sample(e, limit=8)
         out.exhaustive = True
         out.rule = ("classes: each of the 5 predicates, and the acceptance of a character written literally in "
-                    "character data / an attribute value / a comment / PI data / a CDATA section, evaluated on all 1,114,112 scalar values and "
+                    "character data / an attribute value / a comment / PI data / a CDATA section, and the acceptance of a document at 10 "
+                    "sites where one class decides (EncName first/continuation, VersionNum, PubidLiteral in either quote, first/later "
+                    "character of element and attribute names, the character after xmlns), evaluated on all 1,114,112 scalar values and "
                     "compared with the specification's tables (quick: at every interval bound of either "
                     "side, which decides equality of two unions of intervals; thorough: at every code "
                     "point); names: every string of length <= MaxLen over 18 class representatives in 6 "
@@ -96,7 +99,8 @@ def run(prop, tier):
             "PI targets and entity names containing a colon: either answer accepted (Namespaces in XML "
             "asks for NCName there, XML 1.0 for Name)",
         ]
-        out.extra["name_strings"] = len(events) - 10
+        out.extra["name_strings"] = len(events) - ncls
+        out.extra["classes_and_sites"] = ncls
         return out.finish()
     finally:
         C.cleanup(wd)
